@@ -247,6 +247,20 @@ func (s *Store) RemoveApp(appID string) {
 	s.mu.Unlock()
 }
 
+// Registered reports whether an application id is registered.
+func (s *Store) Registered(appID string) bool {
+	s.mu.Lock()
+	defer s.mu.Unlock()
+	_, ok := s.apps[appID]
+	return ok
+}
+
+func (s *Store) UserByID(id string) *User {
+	s.mu.Lock()
+	defer s.mu.Unlock()
+	return s.users[id]
+}
+
 func (s *Store) AddUser(u *User) {
 	s.mu.Lock()
 	s.users[u.ID] = u
